@@ -200,6 +200,19 @@ def make_dst(m, f, dst):
         def pred(node):
             return ("call " + name) if node[0] in blocks else None
         return pred
+    if kind == "write":
+        blocks = set()
+        for b, i, e in f.iter_elems():
+            for (l, r, op, node) in ex.writes(e):
+                if guard.pat_match(f, l, "&".join("d_" + p_ if not p_.startswith("d_") else p_
+                                                  for p_ in dst[1].split("&"))):
+                    blocks.add(b.id)
+        if not blocks:
+            raise AnalysisBroken("%s: no store matching %s" % (f.name, dst[1]))
+
+        def pred(node):
+            return ("store to <%s>" % dst[1]) if node[0] in blocks else None
+        return pred
     raise AnalysisBroken("bad dst %r" % (dst,))
 
 
@@ -322,6 +335,8 @@ def _spec_text(s):
 
 
 def _dst_text(d):
+    if d[0] == "write":
+        return "store to " + d[1]
     if d[0] in ("ret", "retval"):
         return "return " + "/".join(str(x) for x in d[1])
     return " ".join(str(x) for x in d)
